@@ -567,8 +567,45 @@ def case_unresolvable_endpoint(case, col=None):
         raise Violation("shared_context_unusable_after_failed_activation_elsewhere", f"the registry that defines smoot: Q(2,'smoot').to('xs', ctx) -> {v!r}, expected 102")
 
 
+def case_first_activation(case, col=None):
+    """the first activation of a Context object answers like every later one - also when its rules are written with derived dimensions, unit names or
+    Unit objects (rewritten to base dimensions on first use) and the activation carries a parameter, explicitly or handed down by an enclosing context"""
+    import pint
+
+    if col is not None:
+        col.case(("fa", case["endpoint"], case["how"]), True, sample=case, cls="first_activation")
+    ureg = pint.UnitRegistry(["xm = [xlen]", "xs = [xtime]", "[xspeed] = [xlen] / [xtime]", "spd = 2 * xm / xs", "@context(p=5) outerp", "    [xtime] -> [xlen]: value * p * xm / xs", "@end"], non_int_type=Fraction)
+    ctx = pint.Context("cder", defaults={"p": 3})
+    src = {"dimension": "[xspeed]", "name": "spd", "unit": ureg.Unit("spd"), "base": ureg.UnitsContainer({"[xlen]": 1, "[xtime]": -1})}[case["endpoint"]]
+    ctx.add_transformation(src, "[xtime]", lambda ureg_, x, p=3: x * p * ureg_.Quantity(1, "xs ** 2 / xm"))
+    ureg.add_context(ctx)
+    want = {"kw": 7, "default": 3, "inherited": 11}[case["how"]] * 2 * 4  # 4 spd = 8 xm/xs
+    answers = []
+    for _ in range(3):
+        if case["how"] == "kw":
+            s_, v = attempt(lambda: ureg.Quantity(4, "spd").to("xs", "cder", p=7).magnitude)
+        elif case["how"] == "default":
+            s_, v = attempt(lambda: ureg.Quantity(4, "spd").to("xs", "cder").magnitude)
+        else:
+            def f():
+                with ureg.context("outerp", p=11):
+                    with ureg.context("cder"):
+                        return ureg.Quantity(4, "spd").to("xs").magnitude
+            s_, v = attempt(f)
+        answers.append((s_, v if s_ == "ok" else type(v).__name__))
+        if ureg._active_ctx.contexts:
+            ureg.disable_contexts()
+            raise Violation("per_call_context_left_residue:first_activation", f"{case}: contexts still active after the call")
+    if any(a != ("ok", want) for a in answers):
+        raise Violation("activation_answers_differ_between_first_and_later_use", f"{case}: three identical activations gave {answers}, expected {want} each time")
+
+
 def run_shared(task, tier, seed, col):
     import itertools
+
+    for endpoint in ("dimension", "name", "unit", "base"):
+        for how in ("kw", "default", "inherited"):
+            col.run_case(lambda c: case_first_activation(c, col), {"endpoint": endpoint, "how": how})
 
     alphabet = [("enter", "cmult"), ("enter", "coff"), ("leave",), ("ask", 0), ("ask", 1), ("ask", 2)]
     for n in (2, 3, 4):
@@ -592,6 +629,8 @@ def replay(sub, case):
         return case_samename(case)
     if sub == "shared" and "form" in case:
         return case_unresolvable_endpoint(case)
+    if sub == "shared" and "endpoint" in case:
+        return case_first_activation(case)
     if sub == "shared" and case.get("ops") and isinstance(case["ops"][0][0], str):
         return case_parse_scope(case)
     if sub == "shared":
